@@ -10,9 +10,10 @@ namespace PV
 /-- The turn is kept. -/
 def Keep (c c' : Ctx) : Prop := c'.s.nextApp = c.s.nextApp
 
-/-- The turn is kept, or the station went offline and the turn is back at application 0. -/
+/-- The turn is kept, or (the station went offline on a duplicate-address detection and) the turn is back
+at application 0. -/
 def KeepOrReset (c c' : Ctx) : Prop :=
-  c'.s.nextApp = c.s.nextApp ∨ (c'.s.online = false ∧ c'.s.st = .offline ∧ c'.s.nextApp = 0)
+  c'.s.nextApp = c.s.nextApp ∨ c'.s.nextApp = 0
 
 theorem setOffline_next (s : Station) : s.setOffline.nextApp = 0 := rfl
 
@@ -168,5 +169,206 @@ theorem handleLostToken_next (c c1 : Ctx) (now : Int) (o : Option Res) (h : hand
     intro r c' ho
     rw [← h2] at ho
     cases ho
+
+theorem listenTelegramCore_next (c c' : Ctx) (t : Telegram) (l : Bool) (hst : ListenOrOffline c.s)
+    (h : listenTelegramCore c t l = .ok c') : KeepOrReset c c' ∧ ListenOrOffline c'.s := by
+  have hlo := (listenTelegramCore_eff c c' t l hst h).2.1
+  refine ⟨?_, hlo⟩
+  unfold listenTelegramCore at h
+  rcases hst with ⟨hon, a, b, hs⟩ | ⟨hoff, hs⟩
+  · rw [if_neg (by simp [hon]), hs] at h
+    simp only at h
+    split at h
+    · split at h
+      · cases h; exact .inl rfl
+      · simp only [upd] at h
+        have hf5 := setOffline_next c.s
+        obtain ⟨s', hs'⟩ : ∃ s', c.s.setOffline = s' := ⟨_, rfl⟩
+        rw [hs'] at h hf5
+        cases h
+        exact .inr hf5
+    · cases t with
+      | sc => cases h; exact .inl rfl
+      | token da sa => cases h; exact .inl rfl
+      | data hd pdu =>
+        simp only at h
+        split at h
+        · split at h <;> cases h <;> exact .inl rfl
+        · cases h; exact .inl rfl
+  · rw [if_pos (by simp [hoff])] at h
+    cases h
+    exact .inl rfl
+
+theorem foldListen_next (now : Int) : ∀ (calls : List (Telegram × Bool)) (c c' : Ctx), ListenOrOffline c.s →
+    foldTelegrams (listenTelegram now) c calls = .ok c' → KeepOrReset c c' := by
+  intro calls
+  induction calls with
+  | nil => intro c c' _ h; cases h; exact .inl rfl
+  | cons x rest ih =>
+    intro c c' hst h
+    obtain ⟨t, l⟩ := x
+    simp only [foldTelegrams] at h
+    obtain ⟨c1, h1, h2⟩ := bind_ok_inv h
+    unfold listenTelegram at h1
+    obtain ⟨hk1, hl1⟩ := listenTelegramCore_next _ c1 t l (by simpa [upd, ListenOrOffline, markRx_online, markRx_st] using hst) h1
+    have hk2 := ih c1 c' hl1 h2
+    unfold KeepOrReset at *
+    rcases hk2 with e2 | e2
+    · rcases hk1 with e1 | e1
+      · left; rw [e2, e1]; simp [upd, markRx_nextApp]
+      · right; rw [e2]; exact e1
+    · right; exact e2
+
+theorem doListenToken_next (c c' : Ctx) (now : Int) (sr : Option Nat) (coll : Nat) (hon : c.s.online = true)
+    (hst : c.s.st = .listenToken sr coll) (h : doListenToken c now = .ok c') : KeepOrReset c c' := by
+  unfold doListenToken at h
+  rcases hl : handleLostToken c now with ⟨c1, o⟩
+  rw [hl, hst] at h
+  simp only at h
+  cases o with
+  | some r =>
+    simp only at h
+    obtain ⟨-, hcl⟩ := handleLostToken_next _ _ _ _ hl
+    exact .inl (hcl r c' rfl h)
+  | none =>
+    simp only at h
+    obtain ⟨hc1, -⟩ := handleLostToken_next _ _ _ _ hl
+    subst hc1
+    simp only at h
+    cases sr with
+    | some src =>
+      simp only [gol_st, hst] at h
+      split at h
+      · cases h; exact .inl (by simp [ws_nextApp, gol_nextApp])
+      · obtain ⟨c2, he, h⟩ := bind_ok_inv h
+        obtain ⟨b, hb⟩ := encodeOrPanic_inv he
+        subst hb
+        split at h
+        · obtain ⟨s', hs', hc'⟩ := tr_inv h
+          have := toActiveIdle_inv hs'
+          subst this; subst hc'
+          exact .inl (by simp [markTx, ws_nextApp, gol_nextApp])
+        · cases h
+          exact .inl (by simp [upd, markTx, ws_nextApp, gol_nextApp])
+    | none =>
+      rcases hrx : receiveAll c.rx with ⟨rx', calls, ret⟩ | _ | _ <;> rw [hrx] at h <;> simp only [gol_st, hst] at h
+      · have := foldListen_next now calls _ c' (.inl ⟨by simpa [gol_online] using hon, _, _, by simpa [gol_st] using hst⟩) h
+        unfold KeepOrReset at *
+        simpa [gol_nextApp] using this
+      · cases h
+      · cases h
+
+theorem doActiveIdle_next (c c' : Ctx) (now : Int) (sr np : Option Nat) (coll : Nat)
+    (hst : c.s.st = .activeIdle sr np coll) (h : doActiveIdle c now = .ok c') : Keep c c' := by
+  unfold doActiveIdle at h
+  rcases hl : handleLostToken c now with ⟨c1, o⟩
+  rw [hl, hst] at h
+  simp only at h
+  cases o with
+  | some r =>
+    simp only at h
+    obtain ⟨-, hcl⟩ := handleLostToken_next _ _ _ _ hl
+    exact hcl r c' rfl h
+  | none =>
+    simp only at h
+    obtain ⟨hc1, -⟩ := handleLostToken_next _ _ _ _ hl
+    subst hc1
+    simp only at h
+    unfold Keep
+    cases sr with
+    | some src =>
+      simp only [gol_st, hst] at h
+      split at h
+      · cases h; simp [ws_nextApp, gol_nextApp]
+      · obtain ⟨c2, he, h⟩ := bind_ok_inv h
+        obtain ⟨b, hb⟩ := encodeOrPanic_inv he
+        subst hb
+        simp only [upd] at h
+        cases h
+        simp [markTx, ws_nextApp, gol_nextApp]
+    | none =>
+      rcases hrx : receiveAll c.rx with ⟨rx', calls, ret⟩ | _ | _ <;> rw [hrx] at h <;> simp only [gol_st, hst] at h
+      · have := foldIdle_next now calls _ c' h
+        unfold Keep at this
+        simpa [gol_nextApp] using this
+      · cases h
+      · cases h
+
+theorem doCheckTokenPass_next (c c' : Ctx) (now : Int) (att : Attempt)
+    (hst : c.s.st = .checkTokenPass att) (h : doCheckTokenPass c now = .ok c') : Keep c c' := by
+  unfold doCheckTokenPass at h
+  rw [hst] at h
+  simp only at h
+  unfold Keep
+  rcases ite_inv h with ⟨hex, h⟩ | ⟨hex, h⟩
+  · have pass : ∀ (s0 : Station) (att' : Attempt), s0.nextApp = c.s.nextApp →
+        s0.st = .passToken false att' → doPassToken { c with s := s0 } now = .ok c' → c'.s.nextApp = c.s.nextApp := by
+      intro s0 att' e1 e4 hp
+      have := doPassToken_next _ c' now false att' e4 hp
+      rw [this]; exact e1
+    cases att with
+    | first =>
+      simp only [tr, toPassToken, checkSlot_fst, gol_st, hst, Res.bind] at h
+      exact pass _ .second (by simp [gol_nextApp]) rfl h
+    | second =>
+      simp only [tr, toPassToken, checkSlot_fst, gol_st, hst, Res.bind] at h
+      exact pass _ .third (by simp [gol_nextApp]) rfl h
+    | third =>
+      simp only [checkSlot_fst, gol_ring] at h
+      rcases hrm : c.s.ring.removeStation c.s.ring.ns with _ | r0
+      · rw [hrm] at h; cases h
+      · rw [hrm] at h
+        simp only [tr, toPassToken, upd, checkSlot_fst, gol_st, hst, Res.bind] at h
+        exact pass _ .first (by simp [gol_nextApp]) rfl h
+  · rcases hrx : receiveAll c.rx with ⟨rx', calls, ret⟩ | _ | _ <;> rw [hrx] at h <;> simp only at h
+    · cases calls with
+      | nil => cases h; simp [cs_nextApp]
+      | cons x rest =>
+        obtain ⟨t, l⟩ := x
+        simp only [tr, toActiveIdle, markRx_st, checkSlot_fst, gol_st, hst, Res.bind] at h
+        have h2 : foldTelegrams (fun c t isLast => handleTelegram (upd c fun s => markRx s now) now t isLast)
+            { c with rx := rx', s := { (getOrInsertLast c.s now).1 with st := .activeIdle none none 0 } } ((t, l) :: rest) = .ok c' := by
+          simp only [foldTelegrams, upd]
+          exact h
+        have := foldIdle_next now _ _ c' h2
+        unfold Keep at this
+        simpa [gol_nextApp] using this
+    · cases h
+    · cases h
+
+theorem doAwaitStatusResponse_next (c c' : Ctx) (now : Int) (a : Nat) (hst : c.s.st = .awaitStatus a)
+    (h : doAwaitStatusResponse c now = .ok c') : Keep c c' := by
+  unfold doAwaitStatusResponse at h
+  rw [hst] at h
+  simp only at h
+  unfold Keep
+  rcases hg : awaitGapPollResponse c now a with ⟨r, resp⟩
+  rw [hg] at h
+  cases r with
+  | panic site => cases h
+  | ok c1 =>
+    obtain ⟨-, -, -, hn, -⟩ := awaitGap_eff _ _ _ _ _ hg
+    cases resp with
+    | waitingForBus => cases h; exact hn
+    | responded =>
+      simp only at h
+      obtain ⟨s', hs', hc'⟩ := tr_inv h
+      have := toPassToken_inv hs'
+      subst this; subst hc'
+      simpa using hn
+    | noResponse =>
+      simp only at h
+      obtain ⟨c2, ht, h⟩ := bind_ok_inv h
+      obtain ⟨s', hs', hc'⟩ := tr_inv ht
+      have := toPassToken_inv hs'
+      subst this; subst hc'
+      have := doPassToken_next _ c' now false .first rfl h
+      rw [this]; simpa using hn
+    | unexpected =>
+      simp only at h
+      obtain ⟨s', hs', hc'⟩ := tr_inv h
+      have := toActiveIdle_inv hs'
+      subst this; subst hc'
+      simpa using hn
 
 end PV
